@@ -18,30 +18,31 @@ Section Proto.
 Variable ip6 : str -> option str.
 Variable handler : str -> hres.
 Variable has_mw has_upload : bool.
+Variable up_call_fails : option str.
 Variable peer_ip : str.
 Variable peer_fp : option str.
 
 Notation route := (route handler).
 Notation handle_gemini := (handle_gemini ip6 handler has_mw peer_ip peer_fp).
-Notation start_upload := (start_upload has_upload).
-Notation process_titan_upload := (process_titan_upload has_mw has_upload peer_ip peer_fp).
-Notation handle_titan_url := (handle_titan_url ip6 has_mw has_upload peer_ip peer_fp).
-Notation data_received := (data_received ip6 handler has_mw has_upload peer_ip peer_fp).
-Notation feed := (feed ip6 handler has_mw has_upload peer_ip peer_fp).
-Notation task_done := (task_done handler has_upload).
-Notation step := (step ip6 handler has_mw has_upload peer_ip peer_fp).
-Notation run := (run ip6 handler has_mw has_upload peer_ip peer_fp).
-Notation final := (final ip6 handler has_mw has_upload peer_ip peer_fp).
+Notation start_upload := (start_upload has_upload up_call_fails).
+Notation process_titan_upload := (process_titan_upload has_mw has_upload up_call_fails peer_ip peer_fp).
+Notation handle_titan_url := (handle_titan_url ip6 has_mw has_upload up_call_fails peer_ip peer_fp).
+Notation data_received := (data_received ip6 handler has_mw has_upload up_call_fails peer_ip peer_fp).
+Notation feed := (feed ip6 handler has_mw has_upload up_call_fails peer_ip peer_fp).
+Notation task_done := (task_done handler has_upload up_call_fails).
+Notation step := (step ip6 handler has_mw has_upload up_call_fails peer_ip peer_fp).
+Notation run := (run ip6 handler has_mw has_upload up_call_fails peer_ip peer_fp).
+Notation final := (final ip6 handler has_mw has_upload up_call_fails peer_ip peer_fp).
 Notation Inv := (Inv has_upload).
-Notation Eff_step := (Eff_step ip6 handler has_mw has_upload peer_ip peer_fp).
-Notation Inv_step := (Inv_step ip6 handler has_mw has_upload peer_ip peer_fp).
-Notation Inv_final := (Inv_final ip6 handler has_mw has_upload peer_ip peer_fp).
+Notation Eff_step := (Eff_step ip6 handler has_mw has_upload up_call_fails peer_ip peer_fp).
+Notation Inv_step := (Inv_step ip6 handler has_mw has_upload up_call_fails peer_ip peer_fp).
+Notation Inv_final := (Inv_final ip6 handler has_mw has_upload up_call_fails peer_ip peer_fp).
 
 (* ================= C07 ================= *)
 Theorem at_most_once_gen evs : Spec.C07.at_most_once (run init evs) = true.
 Proof.
   unfold Spec.C07.at_most_once, Spec.C07.invocations.
-  pose proof (run_invocs ip6 handler has_mw has_upload peer_ip peer_fp evs init) as H.
+  pose proof (run_invocs ip6 handler has_mw has_upload up_call_fails peer_ip peer_fp evs init) as H.
   unfold invocs in H. change (cap init) with 1%nat in H.
   apply Nat.leb_le. slia.
 Qed.
@@ -54,7 +55,7 @@ Proof. intros L A. unfold ServerProto.data_received. cbn. rewrite L, A. reflexiv
 Theorem single_response_gen evs : Spec.C01.clause_single (run init evs) = true.
 Proof.
   unfold Spec.C01.clause_single.
-  pose proof (run_closes ip6 handler has_mw has_upload peer_ip peer_fp evs init) as H.
+  pose proof (run_closes ip6 handler has_mw has_upload up_call_fails peer_ip peer_fp evs init) as H.
   unfold closes in H. apply Nat.leb_le.
   change (fun a : action => match a with AClose => true | _ => false end) with is_close.
   unfold cs in H. destruct (sent (final init evs)); cbn in H; slia.
@@ -134,10 +135,15 @@ Proof.
   - cbn. discriminate.
 Qed.
 
-Lemma AB_start_upload s : titan s <> None -> has_upload = true -> AB (fst (start_upload s)).
+Lemma AB_start_upload s : sent s = closing s -> tr s = true ->
+  titan s <> None -> has_upload = true -> AB (fst (start_upload s)).
 Proof.
-  intros Ht Hu. unfold ServerProto.start_upload. destruct (titan s); [|contradiction].
-  rewrite Hu. right. rewrite spawn_let. cbn [fst]. apply spawn_pending.
+  intros I T Ht Hu. unfold ServerProto.start_upload. destruct (titan s); [|contradiction].
+  rewrite Hu. destruct up_call_fails as [msg|].
+  - left. rewrite upload_failed_eq.
+    pose proof (send_closing s (err_resp 40 (lit "Upload error: " ++ msg)) I T).
+    destruct (send_response s _); assumption.
+  - right. rewrite spawn_let. cbn [fst]. apply spawn_pending.
 Qed.
 
 Lemma AB_ptu s : sent s = closing s -> tr s = true -> AB (fst (process_titan_upload s)).
@@ -149,7 +155,7 @@ Proof.
   - destruct (negb has_upload) eqn:Eu; [left; rewrite send_error_eq; apply send_closing; assumption|].
     destruct has_mw.
     + right. rewrite spawn_let. cbn [fst]. apply spawn_pending.
-    + apply AB_start_upload; [congruence|]. destruct has_upload; [reflexivity|discriminate].
+    + apply AB_start_upload; [assumption|assumption|congruence|]. destruct has_upload; [reflexivity|discriminate].
   - left; rewrite send_error_eq; apply send_closing; assumption.
 Qed.
 
@@ -186,7 +192,7 @@ Lemma NS_data_received s d : Inv s -> tr s = true ->
 Proof.
   intros I T O [C|[[A PH]|P]].
   - left. eapply closing_mono; [exact I|apply Inv_data_received; exact I| |exact C].
-    apply (e_closes _ _ _ (Eff_data_received ip6 handler has_mw has_upload peer_ip peer_fp s d)).
+    apply (e_closes _ _ _ (Eff_data_received ip6 handler has_mw has_upload up_call_fails peer_ip peer_fp s d)).
   - revert O. pose proof (i_sent _ _ I) as SC. unfold ServerProto.data_received.
     set (s1 := set_buf s (buf s ++ d) (line_rcvd s)).
     assert (SC1 : sent s1 = closing s1) by exact SC. assert (T1 : tr s1 = true) by exact T.
@@ -218,8 +224,8 @@ Lemma NS_feed sl : forall s, Inv s -> tr s = true ->
 Proof.
   induction sl as [|d r IH]; intros s I T; cbn; [auto|].
   pose proof (NS_data_received s d I T) as H1.
-  pose proof (Inv_data_received ip6 handler has_mw has_upload peer_ip peer_fp s d I) as I1.
-  pose proof (e_tr _ _ _ (Eff_data_received ip6 handler has_mw has_upload peer_ip peer_fp s d)) as T1.
+  pose proof (Inv_data_received ip6 handler has_mw has_upload up_call_fails peer_ip peer_fp s d I) as I1.
+  pose proof (e_tr _ _ _ (Eff_data_received ip6 handler has_mw has_upload up_call_fails peer_ip peer_fp s d)) as T1.
   destruct (data_received s d) as [s1 a1]. cbn [fst snd] in *.
   specialize (IH s1 I1). destruct (feed s1 r) as [s2 a2]. cbn [fst snd] in *.
   rewrite existsb_app. intros O N. apply orb_false_iff in O as [O1 O2].
@@ -235,7 +241,7 @@ Proof.
   assert (S : forall r, NS (fst (send_response s1 r))) by (intro; left; apply send_closing; assumption).
   destruct k; destruct o as [r|m|[|] text|]; norm_err; try apply S;
     try (apply AB_NS, AB_route; assumption).
-  all: apply AB_NS, AB_start_upload; apply K; reflexivity.
+  all: apply AB_NS, AB_start_upload; try assumption; apply K; reflexivity.
 Qed.
 
 Lemma NS_step s e : Inv s -> tr s = true -> e <> ELost ->
@@ -282,7 +288,7 @@ Proof.
   destruct (negb has_upload); [rewrite send_error_eq, send_start; discriminate|].
   destruct (titan_from_line ip6 line) as [t|k m|].
   - fold (set_titan s t). set (s1 := set_titan s t).
-    pose proof (fun x => e_timer _ _ _ (Eff_ptu has_mw has_upload peer_ip peer_fp x)) as H.
+    pose proof (fun x => e_timer _ _ _ (Eff_ptu has_mw has_upload up_call_fails peer_ip peer_fp x)) as H.
     destruct (N.eqb (t_size t) 0).
     + intros _. apply H, cancel_timer_not_armed.
     + destruct (N.leb _ _); [|cbn; discriminate].
@@ -305,7 +311,7 @@ Proof.
     + destruct (N.ltb 1024 _); [rewrite send_error_eq, send_start; discriminate|cbn; discriminate].
   - destruct (await_titan s1); [|cbn; discriminate]. destruct (titan s1); [|cbn; discriminate].
     destruct (N.leb _ _); [|cbn; discriminate].
-    intros _. apply (e_timer _ _ _ (Eff_ptu has_mw has_upload peer_ip peer_fp _)).
+    intros _. apply (e_timer _ _ _ (Eff_ptu has_mw has_upload up_call_fails peer_ip peer_fp _)).
     cbn [timer set_content]. apply cancel_timer_not_armed.
 Qed.
 
@@ -315,7 +321,7 @@ Proof.
   induction sl as [|d r IH]; intros s; cbn; [discriminate|].
   pose proof (start_data_received s d) as H1. destruct (data_received s d) as [s1 a1].
   specialize (IH s1).
-  pose proof (e_timer _ _ _ (Eff_feed ip6 handler has_mw has_upload peer_ip peer_fp r s1)) as M.
+  pose proof (e_timer _ _ _ (Eff_feed ip6 handler has_mw has_upload up_call_fails peer_ip peer_fp r s1)) as M.
   destruct (feed s1 r) as [s2 a2]. cbn [fst snd] in *.
   rewrite existsb_app. intro H. apply orb_true_iff in H as [H|H]; auto.
 Qed.
@@ -330,7 +336,7 @@ Proof.
   - unfold ServerProto.task_done at 1.
     destruct (take_task_small id (pending s) (i_len _ _ I)) as [E|[k [P E]]].
     + unfold ServerProto.task_done. rewrite E. cbn. discriminate.
-    + intros _. apply (e_timer _ _ _ (Eff_task_done handler has_upload s id o)).
+    + intros _. apply (e_timer _ _ _ (Eff_task_done handler has_upload up_call_fails s id o)).
       intro A. destruct (i_armed _ _ I A) as [H _]. congruence.
   - destruct (tr s); cbn; discriminate.
 Qed.
@@ -373,7 +379,7 @@ Proof.
     cbn. rewrite T. cbn. rewrite TR, <- C, R. cbn. reflexivity.
   - apply IH; [apply Inv_step; assumption|reflexivity|].
     intro H. apply orb_false_iff in H as [H1 H2]. specialize (R H1).
-    pose proof (step_closes ip6 handler has_mw has_upload peer_ip peer_fp s e) as E.
+    pose proof (step_closes ip6 handler has_mw has_upload up_call_fails peer_ip peer_fp s e) as E.
     apply existsb_count in H2. unfold closes, cs in E. rewrite H2, R in E.
     destruct (sent (fst (step s e))); [slia|reflexivity].
 Qed.
